@@ -141,6 +141,42 @@ func ReactScenarios() []History {
 	)
 	add("transactions-of-several-messages", smallParams(), nil, ops...)
 
+	// odds and ends at their boundaries: a consumer who holds exactly the price of a batch; a one-shot context
+	// of a module whose consumer cannot pay; a withdrawal address chosen, changed and set back to the owner,
+	// and one chosen by an account that owns nothing (yet) when the chain is exported; an owner whose own
+	// account is another owner's provider; the read paths while a binding with pending requests is disabled
+	ops = registry(map[string]int64{"p1": 5, "p2": 3})
+	ops = append(ops,
+		Ev{Name: "SetWithdrawAddr", Signer: "o1", Addr: "w1"},
+		Ev{Name: "SetWithdrawAddr", Signer: "c1", Addr: "w1"}, // c1 owns no provider
+		Ev{Name: "Bind", Signer: "o2", Svc: "s1", Prov: "o1", Deposit: 40, DShape: "ok", Pr: pr(2), Qos: 1}, // o1's account is o2's provider
+		Ev{Name: "SetWithdrawAddr", Signer: "o2", Addr: "c2"},
+		Ev{Name: "Call", Signer: "c2", Svc: "s1", Provs: both, Cap: 10, Timeout: 3},                  // 1: c2 holds exactly 8
+		Ev{Name: "ModCreate", Signer: "w1", Svc: "s1", Provs: both, Cap: 10, Timeout: 2, Thr: 1},     // 2: one-shot, of a consumer who holds nothing
+		Ev{Name: "Call", Signer: "c1", Svc: "s1", Provs: []string{"o1", "p1"}, Cap: 10, Timeout: 3}, // 3
+		eb(1),
+		Ev{Name: "Obs"},
+		Ev{Name: "Disable", Signer: "o1", Svc: "s1", Prov: "p1"},
+		Ev{Name: "Obs"}, // p1's binding is unavailable and has two requests pending
+		Ev{Name: "Respond", Signer: "p1", Rid: rid(1, 1, 1, 0), Kind: "valid"},
+		Ev{Name: "Respond", Signer: "o1", Rid: rid(3, 1, 1, 0), Kind: "valid"},
+		Ev{Name: "SetWithdrawAddr", Signer: "o1", Addr: "o1"}, // back to the owner itself
+		Ev{Name: "Withdraw", Signer: "o1", Prov: "p1"},
+		Ev{Name: "Withdraw", Signer: "o2"},
+		Ev{Name: "Obs"},
+		eb(1), eb(1), eb(1),
+		Ev{Name: "Withdraw", Signer: "o1"},
+		Ev{Name: "PrepZeroHeight"},
+		Ev{Name: "Genesis"},
+		Ev{Name: "Restart"},
+		Ev{Name: "Bind", Signer: "c1", Svc: "s1", Prov: "c1", Deposit: 40, DShape: "ok", Pr: pr(2), Qos: 1}, // c1 becomes an owner on the new chain
+		Ev{Name: "Call", Signer: "c2", Svc: "s1", Provs: []string{"c1"}, Cap: 10, Timeout: 2},
+		eb(1),
+		Ev{Name: "Respond", Signer: "c1", Rid: rid(4, 1, 1, 0), Kind: "valid"},
+		Ev{Name: "Withdraw", Signer: "c1"}, // to the address it chose on the old chain
+	)
+	add("odds-and-ends-at-their-boundaries", smallParams(), map[string]int64{"c2": 8, "c1": 200}, ops...)
+
 	return hs
 }
 
